@@ -50,7 +50,10 @@ Record rstate := {
   r_entry : list (nat * cobs);          (* requests in flight: what they read at entry, status updated by their own writes *)
   r_begins : N;                         (* number of requests begun *)
   r_rejects_more : nat;                 (* registrations the implementation rejected although the specification accepts them *)
-  r_id_differs : bool                   (* some id is not laid out as the model's prefix ++ base36(ticket): tolerated, counted *)
+  r_id_differs : bool;                  (* some id is not laid out as the model's prefix ++ base36(ticket): tolerated, counted *)
+  r_model_off : bool                    (* a handler registered a route while requests were in flight: the model's LRegister is
+                                           not enabled then (Model/StorePool.v); from there on the history is judged by the
+                                           specification alone *)
 }.
 
 Fixpoint assoc_nat (k : nat) (l : list (nat * cobs)) : option cobs :=
@@ -126,7 +129,7 @@ Definition mstep (ok : bool) (m : mux) (l : label) (after : mux -> bool) : mux *
 Definition mk (s : rstate) (mr mc : mux * bool) (entry : list (nat * cobs)) : rstate :=
   {| r_mux := fst mr; r_model_ok := snd mr; r_mux_c := fst mc; r_model_ok_c := snd mc; r_variant := r_variant s;
      r_routes := r_routes s; r_ghosts := r_ghosts s; r_ids := r_ids s;
-     r_entry := entry; r_begins := r_begins s; r_rejects_more := r_rejects_more s; r_id_differs := r_id_differs s |}.
+     r_entry := entry; r_begins := r_begins s; r_rejects_more := r_rejects_more s; r_id_differs := r_id_differs s; r_model_off := r_model_off s |}.
 (** the same label in both models *)
 Definition both (s : rstate) (l : label) (after : mux -> bool) : (mux * bool) * (mux * bool) :=
   (mstep (r_model_ok s) (r_mux s) l after, mstep (r_model_ok_c s) (r_mux_c s) l after).
@@ -157,7 +160,16 @@ Definition check_ev (prefix : list N) (sequential : bool) (names : list (list N)
          models follow the implementation's decision (the route is simply not there) *)
       Some {| r_mux := r_mux s; r_model_ok := r_model_ok s; r_mux_c := r_mux_c s; r_model_ok_c := r_model_ok_c s;
               r_variant := r_variant s; r_routes := r_routes s; r_ghosts := r_ghosts s; r_ids := r_ids s;
-              r_entry := r_entry s; r_begins := r_begins s; r_rejects_more := S (r_rejects_more s); r_id_differs := r_id_differs s |}
+              r_entry := r_entry s; r_begins := r_begins s; r_rejects_more := S (r_rejects_more s); r_id_differs := r_id_differs s; r_model_off := r_model_off s |}
+    else if negb (is_nil (r_entry s)) then
+      (* Handle called from inside a handler: the specification goes on with the new table, the model stops here *)
+      Some {| r_mux := r_mux s; r_model_ok := r_model_ok s; r_mux_c := r_mux_c s; r_model_ok_c := r_model_ok_c s;
+              r_variant := r_variant s;
+              r_routes := if accepted then r_routes s ++ [(p, m)] else r_routes s;
+              r_ghosts := if accepted then r_ghosts s
+                          else match ghost_of (p, m) with Some g => r_ghosts s ++ [g] | None => r_ghosts s end;
+              r_ids := r_ids s; r_entry := r_entry s; r_begins := r_begins s; r_rejects_more := r_rejects_more s;
+              r_id_differs := r_id_differs s; r_model_off := true |}
     else
       let acc (t : table) := match handle t p m with Some _ => true | None => false end in
       let mr := mstep (r_model_ok s) (r_mux s) (LRegister p m) (fun _ => Bool.eqb (acc (m_table (r_mux s))) accepted) in
@@ -168,7 +180,7 @@ Definition check_ev (prefix : list N) (sequential : bool) (names : list (list N)
               r_routes := if accepted then r_routes s ++ [(p, m)] else r_routes s;
               r_ghosts := if accepted then r_ghosts s
                           else match ghost_of (p, m) with Some g => r_ghosts s ++ [g] | None => r_ghosts s end;
-              r_ids := r_ids s; r_entry := r_entry s; r_begins := r_begins s; r_rejects_more := r_rejects_more s; r_id_differs := r_id_differs s |}
+              r_ids := r_ids s; r_entry := r_entry s; r_begins := r_begins s; r_rejects_more := r_rejects_more s; r_id_differs := r_id_differs s; r_model_off := r_model_off s |}
   | EvBegin k path method o =>
     let seen := {| o_who := co_who o; o_any := co_any o; o_vals := co_vals o |} in
     let is_g := obs_eqb (spec_obs_g (r_routes s) (r_ghosts s) names path method) seen in
@@ -192,7 +204,7 @@ Definition check_ev (prefix : list N) (sequential : bool) (names : list (list N)
         Some {| r_mux := fst mr; r_model_ok := snd mr; r_mux_c := fst mc; r_model_ok_c := snd mc; r_variant := v;
                 r_routes := r_routes s; r_ghosts := r_ghosts s; r_ids := co_id o :: r_ids s;
                 r_entry := (k, o) :: r_entry s; r_begins := (r_begins s + 1)%N; r_rejects_more := r_rejects_more s;
-                r_id_differs := r_id_differs s || negb (model_id_same sequential (fst mr) k o) |}
+                r_id_differs := r_id_differs s || negb (model_id_same sequential (fst mr) k o); r_model_off := r_model_off s |}
       else None
     | None => None
     end
@@ -235,6 +247,7 @@ Definition check_ev (prefix : list N) (sequential : bool) (names : list (list N)
 
 (** the model agrees: the one of the variant the implementation showed, either if no request told them apart *)
 Definition model_verdict (s : rstate) : bool :=
+  r_model_off s ||
   match r_variant s with
   | Some true => r_model_ok s
   | Some false => r_model_ok_c s
@@ -246,24 +259,24 @@ Definition residue_differs (s : rstate) : bool :=
 Definition stricter (s : rstate) : bool := match r_rejects_more s with O => false | _ => true end.
 
 Fixpoint check_evs (prefix : list N) (sequential : bool) (names : list (list N)) (s : rstate) (evs : list ev) (i : nat)
-  : verdict * nat * (bool * bool * bool) :=
+  : verdict * nat * (bool * bool * bool * bool) :=
   match evs with
   | [] =>
-    if model_verdict s then (VOk, 0, (residue_differs s, stricter s, r_id_differs s))
-    else (VMismatch, 0, (residue_differs s, stricter s, r_id_differs s))
+    if model_verdict s then (VOk, 0, (residue_differs s, stricter s, r_id_differs s, r_model_off s))
+    else (VMismatch, 0, (residue_differs s, stricter s, r_id_differs s, r_model_off s))
   | e :: rest =>
     match check_ev prefix sequential names s e with
     | Some s' => check_evs prefix sequential names s' rest (S i)
-    | None => (VSpecFail, i, (false, false, false))
+    | None => (VSpecFail, i, (false, false, false, false))
     end
   end.
 
 Definition check_history (prefix : list N) (sequential : bool) (names : list (list N)) (evs : list ev)
-  : verdict * nat * (bool * bool * bool) :=
+  : verdict * nat * (bool * bool * bool * bool) :=
   check_evs prefix sequential names
             {| r_mux := new_mux prefix; r_model_ok := true; r_mux_c := new_mux prefix; r_model_ok_c := true; r_variant := None;
-               r_routes := []; r_ghosts := []; r_ids := []; r_entry := []; r_begins := 0%N; r_rejects_more := 0; r_id_differs := false |} evs 0.
+               r_routes := []; r_ghosts := []; r_ids := []; r_entry := []; r_begins := 0%N; r_rejects_more := 0; r_id_differs := false; r_model_off := false |} evs 0.
 
 (** third component: (dispatch followed the clean specification where HEAD's residue would have shown,
     Handle rejected registrations the specification accepts, ids are laid out differently from the model's) — all tolerated *)
-Definition history_ok (v : verdict * nat * (bool * bool * bool)) : bool := match fst (fst v) with VOk => true | _ => false end.
+Definition history_ok (v : verdict * nat * (bool * bool * bool * bool)) : bool := match fst (fst v) with VOk => true | _ => false end.
